@@ -36,10 +36,11 @@ const (
 	ckWordRuns
 	ckZeroAfter16k
 	ckFewDuplicates
+	ckZeroLed
 	ckKinds
 )
 
-var contentKindNames = []string{"random", "two-symbol", "repeated-slice", "zero-tail", "all-zero", "text", "crc-twins", "word-runs", "zero-after-16k", "few-duplicates"}
+var contentKindNames = []string{"random", "two-symbol", "repeated-slice", "zero-tail", "all-zero", "text", "crc-twins", "word-runs", "zero-after-16k", "few-duplicates", "zero-led"}
 
 // expandContent deterministically expands (kind, seed) to n bytes.
 func expandContent(kind int, seed uint64, n, sliceSize int) []byte {
@@ -100,6 +101,28 @@ func expandContent(kind int, seed uint64, n, sliceSize int) []byte {
 					}
 				}
 				copy(b[dst*sliceSize:(dst+1)*sliceSize], b[src*sliceSize:(src+1)*sliceSize])
+			}
+		}
+	case ckZeroLed:
+		// sparse content: every slice is zeros up to its last few bytes
+		// (and now and then a fully random slice); no slice is all zero
+		for o := 0; o < n; o += sliceSize {
+			end := o + sliceSize
+			if end > n {
+				end = n
+			}
+			v := g.next()
+			if v%7 == 0 {
+				for i := o; i < end; i++ {
+					b[i] = byte(g.next())
+				}
+				continue
+			}
+			k := 1 + int(v>>8)%3
+			for i := end - k; i < end; i++ {
+				if i >= o {
+					b[i] = byte(1 + g.next()%255)
+				}
 			}
 		}
 	case ckZeroTail:
@@ -506,7 +529,7 @@ func GenWorld(r *Run, o GenOpts) *World {
 		total += size
 		kind := ckRandom
 		if !o.RandomOnly {
-			kind = t.Pick([]int{16, 4, 4, 4, 2, 2, 4, 3, 0, 4}, "content")
+			kind = t.Pick([]int{16, 4, 4, 4, 2, 2, 4, 3, 0, 4, 2}, "content")
 			if !o.Par1 && w.S >= 64 && w.S <= 8192 && t.Bool(1, 30, "zero-after-16k") {
 				// the zero tail stays within the slice that contains byte 16384
 				kind = ckZeroAfter16k
